@@ -194,7 +194,10 @@ func entrySample17(e *api.MdnsEntry) any {
 	return map[string]any{"name": e.Name, "port": e.Port, "id": e.Identifier, "addresses": as}
 }
 
-func runC17(r *vh.Rng, n int, w *vh.Writer) int {
+// c08: the same histories for C08's mDNS stream - a panic or a hang of the resolver callback is
+// recorded as a case of its own (MCrash) instead of ending the driver, the histories are wrapped in MHist
+func runC17(r *vh.Rng, n int, w *vh.Writer, c08 bool) int {
+histories:
 	for c := 0; c < n; c++ {
 		recs := recTable()
 		evs := genHistory(r, len(recs))
@@ -234,6 +237,21 @@ func runC17(r *vh.Rng, n int, w *vh.Writer) int {
 				elc[k] = v
 			}
 			err := call("resolver callback", func() { cb(elc, fmt.Sprintf("n%d", i), fmt.Sprintf("h%d", i), ips, 1000+i, e.remove) })
+			if err != nil && c08 {
+				as := make([]string, len(ips))
+				for j, a := range ips {
+					as[j] = a.String()
+				}
+				w.Put(vh.Case{
+					Coq:        fmt.Sprintf("MCrash %s", vh.B(strings.Contains(err.Error(), "no return"))),
+					Nontrivial: true,
+					Key:        fmt.Sprintf("crash|%v|%v|%v|%d", el, as, e.remove, i),
+					Kind:       "callback_crash",
+					Sample: map[string]any{"error": err.Error(), "event_index": i, "txt": el, "addresses": as, "remove": e.remove,
+						"events_before": sampleEvs},
+				})
+				continue histories
+			}
 			if err != nil {
 				fmt.Fprintln(os.Stderr, "mdnsdrv:", err)
 				return 1
@@ -304,16 +322,22 @@ func runC17(r *vh.Rng, n int, w *vh.Writer) int {
 		case len(evs) > 5:
 			kind = "history:6-12"
 		}
+		term := fmt.Sprintf("{| h_own := %s; h_recs := std_recs; h_atab := std_atab; h_evs := %s; h_obs := %s; h_final := %s; h_last := %s |}",
+			pk(own17), vh.List(evsCoq), vh.List(obs), coqMmap(finp), last)
+		if c08 {
+			term = "MHist " + term
+		}
 		w.Put(vh.Case{
-			Coq: fmt.Sprintf("{| h_own := %s; h_recs := std_recs; h_atab := std_atab; h_evs := %s; h_obs := %s; h_final := %s; h_last := %s |}",
-				pk(own17), vh.List(evsCoq), vh.List(obs), coqMmap(finp), last),
+			Coq: term,
 			Nontrivial: nontrivial,
 			Key:        key.String(),
 			Kind:       kind,
 			Sample:     map[string]any{"reader_ski": own17, "events": sampleEvs, "final_skis": keysOf(fin), "reports": expected},
 		})
 	}
-	inversionReplay(r)
+	if !c08 {
+		inversionReplay(r)
+	}
 	return 0
 }
 
